@@ -466,7 +466,7 @@ pub fn property() -> Property {
             Box::new(GenPart {
                 name: "lock-step",
                 rule: "see property rule",
-                cases: (1_000_000, 5_000_000),
+                cases: (1_000_000, 20_000_000),
                 fuzz_decode: Some(crate::fuzzdec::c04a_case),
                 strategy: strategy_a,
                 check: check_a,
@@ -475,7 +475,7 @@ pub fn property() -> Property {
             Box::new(GenPart {
                 name: "receiver-alone",
                 rule: "see property rule",
-                cases: (1_000_000, 5_000_000),
+                cases: (1_000_000, 20_000_000),
                 fuzz_decode: Some(crate::fuzzdec::c04b_case),
                 strategy: strategy_b,
                 check: check_b,
